@@ -146,6 +146,16 @@ def _add_anonymous_aliases(structure, type_definition):
                 ir_data_utils.builder(new_alias).abbreviation.CopyFrom(
                     subfield.abbreviation
                 )
+            # The anonymous bits field itself is skipped in text output, so the
+            # alias is what gets printed: a [text_output] attribute on the
+            # original field has to act on the alias.
+            for attribute in subfield.attribute:
+                if attribute.name.text == attributes.TEXT_OUTPUT:
+                    # The copy is synthetic, so that a bad value is reported once,
+                    # on the original.
+                    alias_attribute = ir_data_utils.copy(attribute)
+                    _mark_as_synthetic(alias_attribute)
+                    new_alias.attribute.append(alias_attribute)
             _mark_as_synthetic(new_alias.existence_condition)
             _mark_as_synthetic(new_alias.read_transform)
             new_fields.append(new_alias)
